@@ -952,7 +952,14 @@ func (g *Gen) MutateWPlus(b *Bundle) WPlusInfo {
 				continue
 			}
 			h := holders[g.r.Intn(len(holders))]
-			root.Get(h).At["$ref"] = []string{"root", "definitions", g.anyDef("root"), "properties", "doesNotExist"}
+			// ... to a property that does not exist, or to a keyword the target definition does not have (the holder of such a keyword
+			// is a nil pointer of a concrete type in the schema model)
+			tail := [][]string{{"properties", "doesNotExist"}, {"items"}, {"additionalProperties"}, {"additionalItems"}, {"not"}, {"items", "0"}}[g.r.Intn(6)]
+			dn := g.anyDef("root")
+			if t := root.Ch["definitions"].Ch[dn]; t != nil && len(tail) >= 1 && t.Ch[tail[0]] != nil {
+				tail = []string{"properties", "doesNotExist"}
+			}
+			root.Get(h).At["$ref"] = append([]string{"root", "definitions", dn}, tail...)
 			info.Unresolvable = true
 			info.Kinds = append(info.Kinds, "dangling-anonymous-pointer")
 		case 6: // local reference to a missing definition (interpretation: not claimed)
